@@ -93,6 +93,13 @@ def expectedPath (root : Id) (t : STree) (f : Id) : List Id :=
   | some p => if root ≠ t.id then root :: p else p
   | none => [root]
 
+/-- What `path` has to be at any time: `expectedPath` over the last frame the focus handler was
+given; before the first frame, the root widget alone. -/
+def drawnPath (s : St) : List Id :=
+  match s.fhFrame with
+  | none => [s.root]
+  | some t => expectedPath s.root t s.focused
+
 /-! ### surfaces under the pointer -/
 
 def inRect (x y : Int) (w h : Nat) (px py : Int) : Bool :=
